@@ -33,8 +33,12 @@ NOTES = [
     "that are not Exceptions escape by design (c18_non_exception_escapes)",
     "determinism across analyses: proved for attribute stores (Type.add_attr) on instances of the generated Type "
     "classes; other process-wide channels (a builtin FunctionType object or a parents=[IntType()] instance mutated in "
-    "place, element types of shared containers) are not modelled - they are probed by the state-leak programs and by "
-    "comparing every program's first analysis with a second one on a fresh report",
+    "place, element types of shared containers) are not modelled - they are probed by the state-leak programs (value x "
+    "container x access path, unique attribute names) and by comparing every program's first analysis with a second one "
+    "on a fresh report",
+    "the comparisons INSIDE the visitor and the type classes (TupleType.index's bound, argument-count guards of the builtin "
+    "definitions, type-argument counts) are part of the model's parameter `inner`, not of the model: off-by-one changes "
+    "there are found by the search-only boundary families with the oracle 'an introductory-subset program completes'",
     "line bound: relative to the parser numbering nodes 1..nlines (CPython universal newlines) and issues being "
     "located at AST nodes (locate = node.lineno + line_offset)",
     "functions of third-party modules pedal also describes (designer, drafter, PIL, matplotlib, microbit, bakery, "
@@ -332,7 +336,19 @@ def search(rng, tier, broken, corr):
                     "tests) - the analysis completes. Inputs: those, plus "
                     "arbitrary-grammar programs over every statement/expression/pattern kind, the repository's own .py "
                     "files, AST-mutated/recombined corpus programs, CR/CRLF/FF/U+2028 variants, non-ASCII identifiers, "
-                    "non-default main file, bare tifa_analysis(), section histories, A-B-A histories",
+                    "non-default main file, bare tifa_analysis(), a report that is not MAIN_REPORT (with and without a "
+                    "submission; feedback is counted on BOTH reports), section histories, A-B-A histories; BOUNDARY families "
+                    "(must complete): every literal position -5..5 / constant expression / slice bound / odd key on ~70 value "
+                    "sources of static size 0..4 (tuple literals, divmod, partition, items/enumerate/zip elements, multi-value "
+                    "returns, *args, annotated tuple parameters) as load, store, augmented store and deletion; every table row "
+                    "called with no / one fewer / one more / two more / all-None / reversed / extra-keyword arguments; user "
+                    "functions with 0..3 parameters x defaults x *rest/**kw called with 0..p+2 arguments; 1..4 unpacking targets "
+                    "against sources of size 0..3; parameterised annotations with 0..3 type arguments declared, called and used; "
+                    "every str/list/dict/set/tuple method on receivers of size 0/1/2; return/def/class/global at depth 0..3 "
+                    "(quick: packed per group, thorough: also every fragment on its own); calls with *args/**kwargs (must only "
+                    "return); STATE-LEAK probes: element value x container construction x access path, read-then-write of an "
+                    "attribute name no earlier probe used (a leak stays in the process and would hide later ones), each analysed "
+                    "twice on fresh reports",
             "evaluations": 0, "distinct_nontrivial": 0, "samples": [], "skipped": {}, "families": {}, "family_seconds": {},
             "feedback_on_MAIN_REPORT_although_another_report_was_passed": 0}
     first = {}
@@ -458,7 +474,7 @@ def search(rng, tier, broken, corr):
                                            "from its issues on a fresh report", a + "\n#----\n" + b, "history", {}))
             if recs[2]["issues"] != recs[0]["issues"] or recs[4]["issues"] != recs[0]["issues"] or recs[3]["issues"] != recs[1]["issues"]:
                 sig = {"kind": "not-idempotent", "what": "issues"}
-                first.setdefault(json.dumps(sig, sort_keys=True), (sig, "A-B-A history: the repeated analysis returned different issues",
+                first.setdefault(json.dumps(sig, sort_keys=True), (sig, "A-B-A history (report: %s): the repeated analysis returned different issues" % (tw.OWN_REPORT_MODES[i % 3] or "MAIN_REPORT"),
                                                                    a + "\n#----\n" + b, "history", {}))
             if not (recs[1]["feedback"] == recs[2]["feedback"] == recs[3]["feedback"] == recs[4]["feedback"]):
                 sig = {"kind": "not-idempotent", "what": "feedback"}
